@@ -34,7 +34,7 @@ import numpy as np
 from hypothesis import strategies as st
 
 from tqv import gen, ref
-from tqv.core import Inconclusive, SubCheck, Violation, req
+from tqv.core import Inconclusive, SubCheck, Violation, req, unlisted_rejection
 from tqv.props import _c20_helpers as H
 
 PROPERTY = "C20"
@@ -786,7 +786,7 @@ def check_fos_rejects(case):
         val = fidelity_of_separability(rho, [2, 2, 2], k=case["k"])
     except ValueError:
         return
-    raise Violation(f"fidelity_of_separability accepted a {case['mode']} input (not a pure density matrix) and returned {val!r}", "fos:no_reject")
+    unlisted_rejection(f"fidelity_of_separability accepted a {case['mode']} input (not a pure density matrix) and returned {val!r}", "fos:no_reject")
 
 
 def nt_fos_reject(case):
